@@ -161,7 +161,7 @@ class C07:
     coq_timeout = 900
     model_targets = ["Pack.vo", "Corr/C07.vo"]
     proof_target = "Props/C07.vo"
-    theorems = ["C07_layout", "C07_roundtrip", "C07_bitfield_pack", "C07_bitfield_unpack", "C07_bitfield_roundtrip", "C07_prefix_free", "C07_stream_injective"]
+    theorems = ["C07_layout", "C07_roundtrip", "C07_bitfield_pack", "C07_bitfield_unpack", "C07_bitfield_roundtrip", "C07_bitfield_injective", "C07_prefix_free", "C07_stream_injective"]
     allowed_axioms = []
     coq_header = "From Rdest Require Import Base Wire Corr.C07.\nOpen Scope N_scope.\n"
     corr_name = "Serializer::data / Frame::parse / Bitfield::{from_vec,to_vec} vs Wire.v"
